@@ -63,7 +63,8 @@ func c10BlockLines(nodes []vNode, i int, out *[]string) {
 
 // VerifC10Reuse: the channel hand-over gives blocks to the ten workers of a stage in turn, so state that a worker
 // keeps from one block to the next only matters from the 11th block on. Ten concrete three-level filler roots are
-// followed by a symbolic tail document of n rows (same family as VerifC10, list-style roots): same accept/reject
+// followed by an 11th block that begins with a concrete root and child and a symbolic tail document of n rows (same
+// family as VerifC10, list-style roots): same accept/reject
 // decision in both modes, and the massive text output consists of the same whole blocks.
 func VerifC10Reuse() {
 	n := verifN()
@@ -74,11 +75,16 @@ func VerifC10Reuse() {
 		rows = append(rows, "- "+f, "  - g", "    - h")
 		lines = append(lines, vLine{0, f}, vLine{1, "g"}, vLine{2, "h"})
 	}
+	// the 11th block starts with a concrete root and child (so that its indentation unit is known and a row nested
+	// too deep can follow at once); the symbolic tail continues that block or starts further ones
+	rows = append(rows, "- t", "  - u")
+	lines = append(lines, vLine{0, "t"}, vLine{1, "u"})
+	c10HasChild0 = true
 	doc := c10Document(n, func(l string) string {
 		nm := verifName(l)
-		verifAssume(!strings.HasPrefix(nm, "f"))
+		verifAssume(!strings.HasPrefix(nm, "f") && nm != "t" && nm != "u")
 		return nm
-	}, true, 2)
+	}, true, 1)
 	verifAssume(!doc.sharp)
 	rows = append(rows, doc.rows...)
 	lines = append(lines, doc.lines...)
@@ -101,6 +107,10 @@ func VerifC10Reuse() {
 	verifAssert(verifQuiesce() == 0, "C10.noleak")
 	verifReach("C10.reuse.end")
 }
+
+// c10HasChild0: the rows in front of the document already gave the current root block an indented row (set by the
+// caller for one c10Document call)
+var c10HasChild0 bool
 
 type c10Doc struct {
 	rows   []string
@@ -130,7 +140,8 @@ func c10DocumentB(n int, name func(string) string, allowBad bool, prev0 int, bul
 		}
 	}
 	prev := prev0 // depth of the item row before the document (-1: none)
-	blockHasChild := false
+	blockHasChild := c10HasChild0
+	c10HasChild0 = false
 	ind := func(k int) string { return c10Rep("  ", k) }
 	for i := 0; i < n; i++ {
 		if i == blankAt {
